@@ -2,3 +2,7 @@ import GlotaranProofs.Props.C19
 import GlotaranProofs.Props.C02
 import GlotaranProofs.Props.C03
 import GlotaranProofs.Props.C15
+import GlotaranProofs.Props.C12
+import GlotaranProofs.Props.C09
+import GlotaranProofs.Props.C20
+import GlotaranProofs.Props.C11
